@@ -16,7 +16,7 @@ RULE = ('TCPCL: C01/C09 plan space with extra user calls (queue queries, idle qu
         'a transfer was queued, in progress or awaiting pop; distinct = distinct event-history digests.')
 COMPONENTS = tc.COMPONENTS
 PROBES = ('probe.query_during_transfer', 'probe.idle_true', 'probe.idle_false', 'probe.double_pop', 'wire.SESS_TERM', 'engine.tcpcl', 'engine.udpcl', 'engine.fullstack', 'engine.scripted',
-          'probe.refuse_after_end', 'probe.refuse_in_progress')
+          'probe.refuse_after_end', 'probe.refuse_in_progress', 'user.send_file', 'user.pop_file')
 ASSUMPTIONS = ['as C01', 'marshalling model agrees with dbus-python 1.3.2 on the argument shapes the agents produce (selftest fidelity)']
 CHUNK = 10
 
